@@ -98,7 +98,9 @@ Proof.
     + (* the insert of add_match *)
       assert (Hh1 : hold1 (TStream src serial cost SChecked) = 1) by reflexivity. specialize (Hlock Hh1).
       destruct (locked s) eqn:Hlk; [discriminate|]. destruct src as [r|].
-      * inversion Hs; subst; clear Hs. cbn [Ptask] in Hpt.
+      * destruct (is_nil (s_senders s));
+          [inversion Hs; subst; apply Hfin; try reflexivity; try exact I; now rewrite Hlock|].
+        inversion Hs; subst; clear Hs. cbn [Ptask] in Hpt.
         assert (Hsum1 : sumf hold1 (s_tasks s) = 1) by (now rewrite Hh, Hlock).
         unfold G. split; [|split; [|split]].
         -- unfold rd_ok in *. cbn. exact Hrd.
